@@ -27,15 +27,16 @@ type corruption struct {
 }
 
 type c06Prog struct {
-	World   sim.Prog     `json:"world"`
-	Src     int          `json:"src"`
-	Dst     int          `json:"dst"`
-	Corrupt []corruption `json:"corrupt"`
-	Policy  string       `json:"policy"` // none | writer | payload | hash
-	PolArg  int          `json:"polarg"`
-	Deny    bool         `json:"denyAppend"` // also try an append the policy denies
-	Conc    int          `json:"conc"`       // LogOptions.Concurrency of the destination (0 = default)
-	InPlace bool         `json:"inPlace"`    // corrupt the source's entry objects themselves (they were verified by an earlier merge) instead of copies
+	World    sim.Prog     `json:"world"`
+	Src      int          `json:"src"`
+	Dst      int          `json:"dst"`
+	Corrupt  []corruption `json:"corrupt"`
+	Policy   string       `json:"policy"` // none | writer | payload | hash
+	PolArg   int          `json:"polarg"`
+	Deny     bool         `json:"denyAppend"`         // also try an append the policy denies
+	Conc     int          `json:"conc"`               // LogOptions.Concurrency of the destination (0 = default)
+	SharedAC bool         `json:"sharedAC,omitempty"` // the source log is guarded by the very access-controller object of the destination (it was built from entries, so the controller never saw them)
+	InPlace  bool         `json:"inPlace"`            // corrupt the source's entry objects themselves (they were verified by an earlier merge) instead of copies
 }
 
 var c06Kinds = []string{"sig-removed", "key-removed", "sig-other-entry", "sig-flip", "payload-changed", "foreign-key", "key-garbage", "key-truncated", "foreign-logid", "next-changed", "time-changed"}
@@ -55,6 +56,7 @@ func genC06(t *rapid.T) c06Prog {
 	p.Deny = rapid.Bool().Draw(t, "denyAppend")
 	p.Conc = rapid.SampledFrom([]int{0, 0, 1, 2, 3, 4, 5, 7}).Draw(t, "conc")
 	p.InPlace = rapid.IntRange(0, 2).Draw(t, "inPlace") == 0
+	p.SharedAC = rapid.IntRange(0, 2).Draw(t, "sharedAC") == 0
 	return p
 }
 
@@ -252,9 +254,11 @@ func runC06(tb ev.TB, p c06Prog) ev.Result {
 		}
 		srcEntries = append(srcEntries, c)
 	}
-	srcLog, err := world.NewLog(w.Store.API(), src.Writer, sim.LogID, w.Order, w.IO, &ipfslog.LogOptions{
-		Entries: entry.NewOrderedMapFromEntries(srcEntries), Heads: pickHeads(srcEntries, world.Hashes(src.Log.Heads())),
-	})
+	srcOpts := &ipfslog.LogOptions{Entries: entry.NewOrderedMapFromEntries(srcEntries), Heads: pickHeads(srcEntries, world.Hashes(src.Log.Heads()))}
+	if p.SharedAC {
+		srcOpts.AccessController = pol
+	}
+	srcLog, err := world.NewLog(w.Store.API(), src.Writer, sim.LogID, w.Order, w.IO, srcOpts)
 	if err != nil {
 		tb.Fatalf("harness: %v", err)
 	}
